@@ -95,14 +95,14 @@ Print Assumptions C12_plugin_prefix_order_refuted.
    re-establishes [table_ok table = true] by vm_compute on the table translated from the sources *)
 Theorem C12_table_theorems : forall T, table_ok T = true ->
   distinct_prefixes T /\
-  (forall name p q, In p T -> In q T -> matches name p -> matches name q -> p = q) /\
+  (no_nesting_b T = true -> forall name p q, In p T -> In q T -> matches name p -> matches name q -> p = q) /\
   (forall ps' name, Permutation T ps' -> dispatch (sort_plugins T) name = dispatch (sort_plugins ps') name) /\
   (forall global, sort_plugins (map (effective global []) T) = map (effective global []) (sort_plugins T)) /\
   (forall global, distinct_prefixes (map (effective global []) T)) /\
   map (effective derive_head []) T = T.
 Proof.
   intros T H.
-  exact (conj (table_default_unambiguous T H) (conj (table_single_candidate T H)
+  exact (conj (table_default_unambiguous T H) (conj (fun Hn name p q => table_single_candidate T H name p q Hn)
         (conj (table_registration_order_irrelevant T H) (conj (table_global_order T H)
         (conj (table_global_distinct T H) (table_default_flag_identity T H)))))).
 Qed.
